@@ -3,6 +3,7 @@
 package corerad
 
 import (
+	"fmt"
 	"bytes"
 	"context"
 	"errors"
@@ -451,6 +452,7 @@ func (c *c18Conn) WriteTo(ndp.Message, *ipv6.ControlMessage, netip.Addr) error {
 // c18Listen delivers the sequence through the real listener (`(*Monitor).monitor` ->
 // `Listen` -> callback -> `handle`), senders carrying their zones.
 func c18Listen(t *testing.T, out *vfh.Out, evs []c18Event) {
+	out.Pending(fmt.Sprintf("c18Listen events=%+v", evs))
 	m, mm := c18NewMonitor()
 	var cur int64
 	m.now = func() time.Time { return time.Unix(0, cur) }
